@@ -75,7 +75,10 @@ prop("C15", "other",
      bounded=[B2.c15_inheritance])
 
 prop("C20", "other",
-     "parse_element's refusal clause under contract where in reach; bounded: every schema position x carrier x unsupported keyword through parse(), "
+     "Deductive: parse_element refuses a schema carrying a documented-unsupported keyword at its own level before doing anything else (raises iff), and each position parser "
+     "(contains, propertyNames, additionalProperties, additionalItems, properties, items single and tuple, patternProperties, dependencies) returns only if no sub-schema at "
+     "its position carries one; only schema-parse errors escape them. Not deductive: the composition / typed / keyword-filter paths of parse_element and the preconditions of "
+     "its calls (need a recursive well-formedness predicate on schemas; reported undecided). Bounded: every schema position x carrier x unsupported keyword through parse(), "
      "literal positions, cyclic documents (in-memory and through real files via the CLI entry point).",
      bounded=[B3.c20_unsupported, B3.c20_cli_cycles])
 
